@@ -310,6 +310,25 @@ def disk_case(case, sess: Session):
             else:
                 if raised is None and got != {} and canon(got) != canon(json.loads(json.dumps(cur))):
                     sess.violation(f"disk:wrong-reconstruction-baseline-{cond}", case, {"how": how, "got": got})
+        if cond == "present":
+            # the same step (A -> B) written once more with ANOTHER payload (a re-snapshot without a new etag): the files now
+            # describe the second payload
+            again = case.get("next") if case.get("next") is not None else dict(json.loads(json.dumps(base)), rewritten={"k": [1, 2]})
+            try:
+                with contextlib.redirect_stderr(err):
+                    logging.disable(logging.CRITICAL)
+                    try:
+                        p_again, wd_again = write_snapshot_auto(d, etag_from="A", etag_to="B", payload=again, delta_mode=True)
+                        got_p = read_snapshot(path=p_again)
+                        got_r = read_snapshot(root=d, etag_to="B")
+                    finally:
+                        logging.disable(logging.NOTSET)
+                sess.count("steps_rewritten_with_another_payload")
+                want = canon(json.loads(json.dumps(again)))
+                if canon(got_p) != want or canon(got_r) != want:
+                    sess.violation("disk:rewritten-step-still-reads-as-the-first-payload", case, {"wrote_delta": wd_again, "by_path": got_p, "by_etag": got_r})
+            except Exception as e:
+                sess.violation("disk:rewrite-of-a-step-raises", case, {"exc": type(e).__name__, "msg": str(e)[:200]})
         # asking for the removed full snapshot itself must report absence (or raise), never hand
         # back a sidecar / temp file as if it were the payload
         if cond in ("deleted_keep_sidecar", "decoy_tmp_only", "is_directory"):
